@@ -213,6 +213,38 @@ PairFailing(r) ==
 PUnambiguous(r) == \A pr \in PPairs(r) : ~PTie(r, pr[1], pr[2])
 PRefCounts(r) == [b \in 1..PNBin(r) |-> PMust(r, b - 1)]
 
+\* ---- the additivity law and first lists beyond what can be enumerated ------------------------------------------
+\* Pair counts are additive in the first list: counting for p1 = a \o b is counting for a plus counting for b, each
+\* with its own slice of a per-point scale (a scalar scale or none goes with both).  HtmIdsMC checks the law on the
+\* small scope (PairAdditive, ScaleLaw); it makes a first list of 10^5 .. 10^6 points decidable from small ones.
+PScaleSlice(sc, a, b) == IF Len(sc) <= 1 THEN sc ELSE SubSeq(sc, a, b)
+PPart(r, a, b) == [r EXCEPT !.p1 = SubSeq(r.p1, a, b), !.scale = PScaleSlice(r.scale, a, b)]
+PAdditiveAt(r, k) ==                   \* split after the k-th first-set point
+    LET t == PBinTable(r)  ta == PBinTable(PPart(r, 1, k))  tb == PBinTable(PPart(r, k + 1, PN1(r))) IN
+    \A b \in 0..(PNBin(r) - 1) :
+        /\ PMustOf(r, t)[b] = PMustOf(PPart(r, 1, k), ta)[b] + PMustOf(PPart(r, k + 1, PN1(r)), tb)[b]
+        /\ PMayOf(r, t)[b]  = PMayOf(PPart(r, 1, k), ta)[b]  + PMayOf(PPart(r, k + 1, PN1(r)), tb)[b]
+\* record  [kind |-> "scale", lat, p1 (the UNIT: a small first list), p2, edges, scale (none | scalar | per point of the unit),
+\*          n, tiles, rem : the executed first list is `tiles` copies of the unit followed by its first `rem` points (n points,
+\*          the per-point scale tiled alike), uobs, robs, bobs : [err, counts] of the SAME implementation on the unit, on the
+\*          first rem points of the unit, and on the n points]
+\* The parts are judged by brute force; the big call is judged through the law: counts = tiles * unit + remainder.
+ScaleFailing(r) ==
+    LET m    == Len(r.p1)
+        unit == [kind |-> "pairs", lat |-> r.lat, p1 |-> r.p1, p2 |-> r.p2, edges |-> r.edges, scale |-> r.scale, obs |-> <<r.uobs>>]
+        remr == [kind |-> "pairs", lat |-> r.lat, p1 |-> SubSeq(r.p1, 1, r.rem), p2 |-> r.p2, edges |-> r.edges,
+                 scale |-> PScaleSlice(r.scale, 1, r.rem), obs |-> <<r.robs>>]
+    IN IF r.n # r.tiles * m + r.rem \/ r.rem >= m \/ r.rem < 0 THEN {"MACHINERY_malformed_case"}
+       ELSE {"part_" \o f : f \in PairFailing(unit)} \cup
+            (IF r.rem > 0 THEN {"part_" \o f : f \in PairFailing(remr)} ELSE {}) \cup
+            (IF r.bobs.err # "none" THEN {"unexpected_error"}
+             ELSE IF r.uobs.err # "none" \/ (r.rem > 0 /\ r.robs.err # "none") THEN {}
+             ELSE IF Len(r.bobs.counts) # PNBin(unit) \/ Len(r.uobs.counts) # PNBin(unit) \/ (r.rem > 0 /\ Len(r.robs.counts) # PNBin(unit))
+                  THEN {"counts_length"}
+             ELSE IF \A b \in 1..PNBin(unit) :
+                        r.bobs.counts[b] = r.tiles * r.uobs.counts[b] + (IF r.rem > 0 THEN r.robs.counts[b] ELSE 0)
+                  THEN {} ELSE {"large_first_list_not_sum_of_parts"})
+
 \* ---- histories on one HTM object ------------------------------------------------------------------------
 \* record  [kind |-> "history", lat, calls : Seq([p1, p2, edges, scale, obs])]
 \* The calls were made in this order on ONE HTM object, the caller re-using the same array objects (ra1, dec1,
@@ -230,5 +262,6 @@ Failing(r) == IF r.kind = "lookup" THEN LookupFailing(r)
               ELSE IF r.kind = "cover" THEN CoverFailing(r)
               ELSE IF r.kind = "pairs" THEN PairFailing(r)
               ELSE IF r.kind = "history" THEN HistoryFailing(r)
+              ELSE IF r.kind = "scale" THEN ScaleFailing(r)
               ELSE {"MACHINERY_unknown_kind"}
 =============================================================================
